@@ -1,6 +1,6 @@
 from driver import Unit
 
-NAMES = {0: "int", 1: "pod", 2: "tcm", 3: "tmo", 4: "il"}
+NAMES = {0: "int", 1: "pod", 2: "tcm", 3: "tmo", 4: "il", 5: "sr"}
 
 
 def u(elem, tag, caps, quick=True, nocc=False, nx=False):
@@ -40,6 +40,11 @@ P = dict(
         u(2, "a", "0,1,2,3", nocc=True, nx=True), u(2, "b", "16,254,255,256"), u(2, "c", "4", quick=False),
         u(3, "a", "0,1,2,3", nx=True), u(3, "b", "4,16,255,256", quick=False),
         u(4, "a", "0,1,2,3"), u(4, "b", "4,16,256", quick=False),
+        u(5, "a", "0,1,2,3"), u(5, "b", "4,16,255", quick=False),
+        # element constructors that throw in the middle of an operation (the exception-injection scenarios of C03): std::vector gives the strong
+        # guarantee for appends at the end, so the size must be unchanged after a failed emplace_back/push_back/try_*/unchecked_*
+        Unit("C01_throw", "harness/C03_throw.cpp", flavours={"quick": ["asan-cc"], "thorough": ["asan-cc", "asanO0-nocc"]}, shards={"quick": 4, "thorough": 8},
+             only_kinds={"diverge", "crash", "hang"}),  # the lifetime records of these scenarios are C03's (and C02's) subject
         # floating-point elements (+0/-0, NaN): the six relations and value-based erasure must go through the elements' own == and <
         Unit("C01_fp_double", "harness/C01_fp.cpp", defs=["-DVF_FP=double", '-DVF_FP_NAME="double"'],
              flavours={"quick": ["asan-cc", "plain-cc"], "thorough": ["asan-cc", "plain-cc", "O0-nocc"]}, shards={"quick": 2, "thorough": 4}),
